@@ -202,7 +202,7 @@ package join
 //@   modifies dsc.join, elems(dsc.join), dsc.passAt, gClock, gIn, gInN, gClosed, gOutN, gLastDeliv, gLent, gOwned, gTick
 
 //@ func Opts.isValid
-//@   ensures [*] (result == nil) <==> (opts.Input != nil && opts.JoinSize != 0)
+//@   ensures [* C03] (result == nil) <==> (opts.Input != nil && opts.JoinSize != 0)
 
 //@ func Opts.normalize
 //@   ensures [* C03 C08 C20 C09 C10 C11] options-are-kept: result.Input == opts.Input && result.JoinSize == opts.JoinSize && result.NoCopy == opts.NoCopy && result.Timeout == opts.Timeout
